@@ -1,6 +1,60 @@
 """Phase 4k (worker Q): table entries of Gen/RnsFns.lean for the rest of the BEHZ layer of src/util/rns.rs
 (imported by rs2lean.py; kept in its own module so that merges with other workers' tables stay trivial)."""
 UR = "src/util/rns.rs"
+
+
+# ---- phase 4k: element borrows `let d = &mut X[E];` (table flag `elem_borrows`), rewritten BEFORE the lowering into
+#   let d__ix = E;  let d__at = X[d__ix];      (the index is evaluated once, the bounds check happens at the borrow, as in Rust)
+# and, in the rest of the same block, `*d` |-> `X[d__ix]` (reads and assignments).  Any other use of `d`, a `mut` binding, a typed binding,
+# an `X` that is not a plain variable, a range index are refused.  (While `d` is live Rust's borrow checker forbids every other access to `X`,
+# so reading / writing `X[d__ix]` in place is the same thing.)
+def _sp(e):
+    while isinstance(e, tuple) and e and e[0] == "paren": e = e[1]
+    return e
+
+def _subst_borrow(x, d, repl, fail):
+    if isinstance(x, list): return [_subst_borrow(y, d, repl, fail) for y in x]
+    if not isinstance(x, tuple) or not x: return x
+    if x[0] == "deref":
+        b = _sp(x[1])
+        if b[0] == "path" and b[1] == [d]: return repl
+    if x[0] == "path" and x[1] == [d]: fail(f"element borrow `{d}` used other than as `*{d}`")
+    if x[0] == "let" and x[1] == d: fail(f"element borrow `{d}` is shadowed")
+    if x[0] == "closure": fail(f"closure in the scope of the element borrow `{d}`")
+    return tuple(_subst_borrow(y, d, repl, fail) if isinstance(y, (tuple, list)) else y for y in x)
+
+def desugar_elem_borrows(x, fail):
+    def block(blk):
+        stmts, tail = blk
+        out = []; i = 0
+        stmts = list(stmts)
+        while i < len(stmts):
+            s = stmts[i]
+            if isinstance(s, tuple) and s and s[0] == "let" and isinstance(s[1], str) and s[4] is not None:
+                i0 = _sp(s[4])
+                if i0[0] == "ref" and i0[1]:
+                    tgt = _sp(i0[2])
+                    if not (tgt[0] == "index" and _sp(tgt[1])[0] == "path" and len(_sp(tgt[1])[1]) == 1 and _sp(tgt[2])[0] != "range"):
+                        fail("`let d = &mut ..` of anything but an element `x[i]` of a slice variable")
+                    if s[2] or s[3] is not None: fail("element borrow bound `mut` / with a type annotation")
+                    d = s[1]; ix = d + "__ix"; ln = s[5]
+                    repl = ("index", _sp(tgt[1]), ("path", [ix]))
+                    out.append(("let", ix, False, None, tgt[2], ln))
+                    out.append(("let", d + "__at", False, None, repl, ln))
+                    stmts = stmts[:i + 1] + _subst_borrow(stmts[i + 1:], d, repl, fail)
+                    if tail is not None: tail = _subst_borrow(tail, d, repl, fail)
+                    i += 1; continue
+            out.append(walk(s)); i += 1
+        return (out, None if tail is None else walk(tail))
+    def walk(x):
+        if isinstance(x, list): return [walk(y) for y in x]
+        if not isinstance(x, tuple) or not x: return x
+        # a block is a pair (list of statements, tail expression or None)
+        if len(x) == 2 and isinstance(x[0], list) and (x[1] is None or isinstance(x[1], tuple)) and all(isinstance(t, tuple) for t in x[0]):
+            return block(x)
+        return tuple(walk(y) if isinstance(y, (tuple, list)) else y for y in x)
+    return block(x)
+
 TG = "self.base_t_gamma.as_ref().unwrap()"
 TABLE_RNS_4K = [
     {"file": UR, "fn": "decrypt_scale_and_round", "impl": "RNSTool", "model": "RNSTool.decryptScaleAndRound", "nested_loops": True,
@@ -14,4 +68,10 @@ TABLE_RNS_4K = [
                   ("self.base_q_to_t_gamma_conv",),
                   ("self.inv_gamma_mod_t.as_ref().unwrap()", "invGammaModT", "MulOperand")],
      "extern": [{"rcall": "self.base_q_to_t_gamma_conv.as_ref().unwrap().fast_convert_array", "binder": "qToTGammaF"}]},
+    {"file": UR, "fn": "fastbconv_sk", "impl": "RNSTool", "model": "RNSTool.fastbconvSk", "nested_loops": True, "elem_borrows": True,
+     "abstract": [("self.base_q.len()", "qSize", "Nat"), ("self.base_B.len()", "bSize", "Nat"), ("self.coeff_count", "coeffCount", "Nat"),
+                  ("self.m_sk", "mSk", "Modulus"), ("self.inv_prod_B_mod_m_sk", "invProdBModMsk", "MulOperand"),
+                  ("self.base_q.base_at(#)", "baseQ", "List Modulus"), ("self.prod_B_mod_q[#]", "prodBModQ", "List Nat")],
+     "extern": [{"rcall": "self.base_B_to_q_conv.fast_convert_array", "binder": "bToQF"},
+                {"rcall": "self.base_B_to_m_sk_conv.fast_convert_array", "binder": "bToMskF"}]},
 ]
